@@ -280,6 +280,16 @@ def history(args):
     return body
 
 
+def _jsonable(o):
+    # numpy arrays / scalars among the features (the gradient evaluator stores an ndarray): compared as lists / floats
+    import numpy
+    if isinstance(o, numpy.ndarray):
+        return o.tolist()
+    if isinstance(o, numpy.generic):
+        return o.item()
+    raise TypeError('not JSON serialisable: %r' % type(o))
+
+
 def run_store(args):
     """A whole (small) algorithm run with the store attached: afterwards the store holds a row
     with the final data of every recorded individual.  Concrete run; solver choices only place
@@ -310,7 +320,9 @@ def run_store(args):
             return [(x[0] - 0.3) ** 2 + x[1] / 3.0, 1.0 / (1.0 + x[0] ** 2) + 0.1 * x[1]]
 
     prob = P()
-    cls = {'nsga2': NS.NSGAII, 'epsmoea': GA.EpsMOEA, 'smpso': SW.SMPSO}[algo]
+    import artap.algorithm_sweep as SWEEP
+    import artap.operators as OPS
+    cls = {'nsga2': NS.NSGAII, 'epsmoea': GA.EpsMOEA, 'smpso': SW.SMPSO, 'sweep': SWEEP.SweepAlgorithm}[algo]
 
     def body(ctx):
         from artap.individual import Individual
@@ -319,13 +331,28 @@ def run_store(args):
         _random.seed(1234 + N + G)
         box.update(ctx=ctx, ncalls=0, nfault=0)
         prob.individuals, prob.failed = [], []
+        prob.costs = prob.costs[:2]        # a worst-case evaluator of an earlier path appended its extra objective
         prob.surrogate = SurrogateModelEval(prob)
         fd, db = tempfile.mkstemp(suffix='.sqlite')
         os.close(fd)
         os.remove(db)
         try:
             prob.data_store = DS.SqliteDataStore(prob, database_name=db, mode='write')
-            alg = cls(prob)
+            if algo == 'sweep':
+                # a design-of-experiments sweep with a NON-DEFAULT evaluator: the gradient / worst-case evaluators add
+                # features and costs after Job.evaluate has written the row -- the final data must still reach the store
+                gen = OPS.CustomGenerator(prob.parameters)
+                gen.init([[0.1 + 0.2 * i, 0.3 + 0.1 * i] for i in range(N)])
+                alg = cls(prob, generator=gen)
+                for p_ in prob.parameters:
+                    p_['tol'] = 0.05
+                ev = args.get('evaluator')
+                if ev == 'gradient':
+                    alg.evaluator = OPS.GradientEvaluator(alg)
+                elif ev == 'worst':
+                    alg.evaluator = OPS.WorstCaseEvaluator(alg)
+            else:
+                alg = cls(prob)
             alg.options['max_population_size'] = N
             alg.options['max_population_number'] = G
             if algo == 'smpso':
@@ -345,7 +372,7 @@ def run_store(args):
             g = got.get(ind.id)
             if g is None:
                 continue
-            exp = _json.loads(_json.dumps(_snapshot(ind)))   # final data, normalised to JSON types
+            exp = _json.loads(_json.dumps(_snapshot(ind), default=_jsonable))   # final data, normalised to JSON types
             ctx.check('final-vector', _differs(g.vector, exp['vector']))
             ctx.check('final-costs', _differs(g.costs, exp['costs']))
             ctx.check('final-signed-costs', _differs(g.costs_signed, exp['costs_signed']))
@@ -396,4 +423,7 @@ def configs(tier):
     for algo, N, G in runs:
         out.append({'name': 'run-store-%s-N%d-G%d' % (algo, N, G), 'task': 'run_store', 'args': {'algo': algo, 'N': N, 'G': G},
                     'weight': 20, 'engine': {'validate': 0}})
+    for ev in ('default', 'gradient', 'worst'):
+        out.append({'name': 'run-store-sweep-N2-%s-evaluator' % ev, 'task': 'run_store',
+                    'args': {'algo': 'sweep', 'N': 2, 'G': 1, 'evaluator': ev}, 'weight': 10, 'engine': {'validate': 0}})
     return out
